@@ -486,7 +486,7 @@ func writeReplay(eng *Engine, p *Property, e *LedgerEntry, fp *FuncProof, base s
 		info["solver_output"] = e.failRes.Raw
 	}
 	rr := replayResult{Path: base + ".json"}
-	if fp != nil {
+	if fp != nil || p.ID == "C04" {
 		if test, ok := concreteReplay(eng, p, e, fp, base); ok {
 			info["replay_test"] = test.File
 			info["replay_cmd"] = test.Cmd
